@@ -14,6 +14,19 @@ CHECKS = {
     ),
 }
 
+CHECKS["C01"] = (
+    "online reference-model monitor: every read of the real State compared with a from-scratch evaluation on a shadow of the independent values; quiescent-point cache invariant after every operation; random operation histories on toy and model graphs",
+    "Held on the histories observed: thousands of random set/put/read/revert/partial-revert/clone/fork-switch histories on random toy graphs and on every shipped model graph, every read and every cache entry checked against an executable reference that shares no code with State's cache. Exploration: unbounded history space is sampled.",
+    "Trusts vf/stateharness.RefState (documented semantics of set/put/revert/clone) and the individual-wise classification used to respect the documented partial-revert precondition.",
+    "DESIGN.md §2 C01",
+)
+CHECKS["C02"] = (
+    "twin execution: twin state receives only the accepted part of each proposal; all independent values, cache entries and reads compared after the decision and along a following history; real samplers observed through SamplerProbe (recorded proposals/decisions)",
+    "Held on the episodes observed: proposal/decision episodes with finite, huge and non-finite proposals, full / per-individual / no rejection on toy and model graphs, plus every sample() call of the four real sampler kinds under normal and adversarial proposal scales. Exploration.",
+    "Trusts the twin (plain assignment of accepted parts) and the recorded proposal/decision events returned by the real sampler methods.",
+    "DESIGN.md §2 C02",
+)
+
 NOT_YET = {}
 
 QUICK_BASELINE = (
